@@ -121,6 +121,15 @@ def env_case(draw):
     scalars = [i for i, p in enumerate(params) if not p["shape"] and p["val"] is not None]
     define = draw(st.lists(st.sampled_from(scalars), max_size=2, unique=True)) if scalars else []
     const = draw(st.lists(st.sampled_from(range(n)), max_size=2, unique=True))
+    if draw(st.integers(0, 4)) == 0 and len(params[0]["path"]) >= 2 and not params[0]["shape"] and params[0]["val"] is not None:
+        # '#define' asked for a parameter inside a group; a top-level parameter carries the same last name and was
+        # not asked for: the lists name full paths
+        leaf = params[0]["path"][-1]
+        if not any(p["path"] == [leaf] for p in params):
+            params.append({"path": [leaf], "type": "int", "shape": [], "val": 7, "unit": None, "tag": False})
+            n = len(params)
+        define = [0]
+        const = [c for c in const if c != 0]
     return {"params": params, "units": draw(st.booleans()), "rename": draw(st.sampled_from([True, True, False])),
             "define": define, "const": const,
             "select": select,
